@@ -87,7 +87,7 @@ def stats(res, key, sc, order=None):
     d["scenarios"] = d.get("scenarios", 0) + 1
 
 
-def run_general(ctx, fields, what, n_fake, n_real, gen=None, rule="", names_mix=True):
+def run_general(ctx, fields, what, n_fake, n_real, gen=None, rule="", names_mix=True, extra_cases=None):
     rng = random.Random(ctx["seed"])
     res = vlib.Result()
     res.rule = rule
@@ -110,6 +110,8 @@ def run_general(ctx, fields, what, n_fake, n_real, gen=None, rule="", names_mix=
             if it % 3 == 0:
                 twin_cases(eng, res, sc, rng, fields, what)
         tiny_cases(eng, res, fields, what, rng)
+        if extra_cases is not None:
+            extra_cases(eng, res, fields, what, rng)
         replace_spelling_cases(eng, res, fields, what)
         wide_cases(eng, res, fields, what, ctx["tier"] == "quick", rng)
         scale_cases(eng, res, fields, what, ctx["tier"] == "quick", rng)
@@ -123,7 +125,7 @@ def run_general(ctx, fields, what, n_fake, n_real, gen=None, rule="", names_mix=
 
 # how the objects of a real repository are stored, cycled through by the real-git runs of every scan check
 STORAGE = [False, True, "partial", False, "bitmap", "GIT_ALTERNATE_OBJECT_DIRECTORIES", False, "bitmap+loose", "objects/info/alternates",
-           True, "GIT_OBJECT_DIRECTORY", "info/grafts"]
+           True, "GIT_OBJECT_DIRECTORY", "info/grafts", "GIT_GRAFT_FILE"]
 
 ENV_VARIANTS = [
     {"LC_ALL": None, "LANG": None, "LC_NUMERIC": None, "LC_CTYPE": None},            # no locale at all
@@ -217,7 +219,7 @@ def tiny_scenarios():
             s = S.Scenario()
             b = s.add({"kind": "blob", "data": b"x"})
             sub = s.add({"kind": "tree", "entries": [(0o100644, b"f", b)]})
-            ref = sub if kind == "dir" else (bytes(range(1, 21)) if kind == "sub" else b)
+            ref = sub if kind == "dir" else ((b"\0" * 20 if pos == "last" else bytes(range(1, 21))) if kind == "sub" else b)
             if pos == "only":
                 ents = [(mode, b"z", ref)]
             elif pos == "first":
